@@ -97,6 +97,7 @@ def kwTrailer : Bytes := [116, 114, 97, 105, 108, 101, 114]      -- "trailer"
     `none` = "cannot use xref tables with object streams" -/
 def xrefTableBody (m : XMap) (nextRef : Nat) : Option Bytes :=
   if hasInStream m nextRef then none
+  else if m.any (fun ne => ne.2.inStream == 0 && decide (ne.2.pos > 9999999999)) then none
   else some (kwXref ++ [10, 48, 32] ++ decOf nextRef ++ [10] ++ xrefLines m 0 nextRef)
 
 /-! ### `writeXRefStream`: field sizing and rows -/
@@ -113,7 +114,7 @@ def sizingFields : Option XEntry → Nat × Nat
   | some e =>
     if e.inStream != 0 then (e.inStream, u64 e.pos)
     else if e.pos ≥ 0 then (u64 e.pos, e.gen)
-    else (0, if e.gen == Gen.fio_maxGeneration then 0 else e.gen)
+    else (0, e.gen)   -- a free entry carries its generation (65535 for object 0: two bytes)
 
 def maxFields (m : XMap) : Nat → Nat → Nat × Nat
   | _, 0 => (0, 0)
